@@ -27,8 +27,9 @@
 (*     push; every loco.save_state()                                        *)
 (*   Locomotive (locomotive_model.rs:1190): loco_type.save_state() FIRST    *)
 (*     and unconditionally, THEN gate on the LOCOMOTIVE's i/interval; push  *)
-(*   ConventionalLoco / BatteryElectricLoco (derive HistoryMethods, no      *)
-(*     state, no interval): every #[has_state] field .save_state()          *)
+(*   ConventionalLoco / BatteryElectricLoco / HybridLoco (derive            *)
+(*     HistoryMethods, no state, no interval): every #[has_state] field     *)
+(*     .save_state()                                                        *)
 (*   FuelConverter, Generator, ReversibleEnergyStorage, ElectricDrivetrain, *)
 (*     FricBrake (derive, hm_derive.rs:59): gate on their OWN i/interval    *)
 (*   => a node is pushed iff its own gate and the gate of every *gating     *)
@@ -44,7 +45,7 @@ EXTENDS Integers, Sequences, FiniteSets, TLC
 CONSTANTS Fault      \* "none" | "skip_fric" | "skip_gen" | "gate_next" | "save_on_err" | "step_first"
 
 VARIABLES kind,      \* "loco" | "consist" | "setspeed" | "slts" | "timed"
-          comp,      \* sequence of "conv" | "bel"
+          comp,      \* sequence of "conv" | "bel" | "hyb"
           nd, simi,
           av,        \* interval last requested at the top (0 = None)
           log,       \* executed calls: [op |-> "Init"|"Step", i |-> abstract index, v |-> av then]
@@ -82,7 +83,9 @@ Aligned == SameLength /\ SameStep /\ CountersEqual /\ StepIndex /\ SavedCount /\
 ----------------------------------------------------------------------------
 (* tree shapes *)
 Node(lvl, k, c, v) == [lvl |-> lvl, k |-> k, c |-> c, i |-> 1, iv |-> v, hi |-> <<>>]
-CompsOf(t) == IF t = "conv" THEN <<"fc", "gen", "edrv">> ELSE <<"res", "edrv">>
+CompsOf(t) == CASE t = "conv" -> <<"fc", "gen", "edrv">>
+                [] t = "hyb" -> <<"fc", "gen", "res", "edrv">>     \* HybridLoco: derive(HistoryMethods), no own state / gate
+                [] OTHER -> <<"res", "edrv">>
 Unit(k, t, v) == <<Node("loco", k, "", v)>> \o [j \in Idx(CompsOf(t)) |-> Node("comp", k, CompsOf(t)[j], v)]
 RECURSIVE Units(_, _, _)
 Units(cp, k, v) == IF k > Len(cp) THEN <<>> ELSE Unit(k, cp[k], v) \o Units(cp, k + 1, v)
